@@ -24,9 +24,9 @@ CHECKS.update({
    technique="direct differential of the two compiled engines on the full observation alphabet + each against its Lean model",
    text="Large and Fast engines run the same charts/histories; traces (monitor notifications, logs, step() results, configurations) must be identical, and each equals its Lean model.",
    design_ref="6 / C03", note=ENGINE_NOTE),
- "C13": dict(category="exploration",
-   technique="Lean stack automaton Spec.Nesting.check run over every notification trace of both compiled engines",
-   text="Well-nestedness and once-per-macrostep stable notice are decided by the Lean checker on every trace, including runs with failing elements at random positions and top-level finals.",
+ "C13": dict(category="proof",
+   technique="Lean theorem (invariant by induction over API operations, structural induction over executable content) that the notification stream of both engine models is accepted by the nesting automaton Spec.Nesting; the models are tied to the compiled engines by trace equality and the same automaton (compiled from Lean) is run over every real trace",
+   text="notifications_well_nested is proved for every chart, both engines and every sequence of step/receive/cancel/reset/destroy operations of any length: balance, nesting, exit-transition-entry phases, content only inside brackets, one stable-configuration notice per macrostep. 'Every exited/entered state, transition, element and event is reported exactly once and in execution order' holds in the model by construction (the notifications are how the model executes) and reaches the code through the correspondence: the compiled engines' notification traces must equal the model's on every generated chart and history (a difference is reported as a broken tie) and are themselves run through the automaton.",
    design_ref="6 / C13", note=ENGINE_NOTE),
 })
 CHECKS["C15"] = dict(category="exploration",
